@@ -41,7 +41,13 @@ type Case struct {
 	Sc     scen.Scenario `json:"scenario"`
 	Faults []Fault       `json:"faults"`
 	DirBox bool          `json:"dirbox"`
+	// DupA / DupB: that station's mailbox hands its first outbound message to the session twice (GetOutbound
+	// returns it two times - the library's own comments say Radio Only gateways produce such duplicates)
+	DupA bool `json:"dup_a,omitempty"`
+	DupB bool `json:"dup_b,omitempty"`
 }
+// policy "=1" (in scen.Side.Policy): the station defers that message in the first session of the history (it is
+// busy) and accepts it in every later session.
 
 // ---- mailbox abstraction: membox or DirHandler behind a recorder ------------------------------
 
@@ -56,6 +62,9 @@ type recorder struct {
 	sent     map[string]int
 	rejected map[string]int
 	deferred map[string]int
+	policy   map[string]string
+	sess     int  // sessions started so far (Prepare calls)
+	dupOut   bool // GetOutbound returns the first message twice
 }
 
 func (r *recorder) ev(e membox.Event) {
@@ -65,11 +74,18 @@ func (r *recorder) ev(e membox.Event) {
 func (r *recorder) Prepare() error {
 	r.mu.Lock()
 	r.nIn = 0
+	r.sess++
 	r.ev(membox.Event{Kind: "prepare"})
 	r.mu.Unlock()
 	return r.inner.Prepare()
 }
-func (r *recorder) GetOutbound(fw ...fbb.Address) []*fbb.Message { return r.inner.GetOutbound(fw...) }
+func (r *recorder) GetOutbound(fw ...fbb.Address) []*fbb.Message {
+	out := r.inner.GetOutbound(fw...)
+	if r.dupOut && len(out) > 0 {
+		out = append([]*fbb.Message{out[0]}, out...)
+	}
+	return out
+}
 func (r *recorder) SetSent(mid string, rej bool) {
 	r.mu.Lock()
 	if rej {
@@ -125,6 +141,9 @@ func (r *recorder) ProcessInbound(msgs ...*fbb.Message) error {
 func (r *recorder) GetInboundAnswer(p fbb.Proposal) fbb.ProposalAnswer {
 	a := r.inner.GetInboundAnswer(p)
 	r.mu.Lock()
+	if a == fbb.Accept && r.policy[p.MID()] == "=1" && r.sess <= 1 {
+		a = fbb.Defer
+	}
 	r.ev(membox.Event{Kind: "answer", MID: p.MID(), Answer: string(rune(a))})
 	r.mu.Unlock()
 	return a
@@ -172,7 +191,9 @@ func newStation(s scen.Side, dirbox bool, tmp string) (*station, error) {
 	} else {
 		mb = membox.New(s.Call)
 		for mid, a := range s.Policy {
-			mb.Policy[mid] = fbb.ProposalAnswer(a[0])
+			if a != "=1" {
+				mb.Policy[mid] = fbb.ProposalAnswer(a[0])
+			}
 		}
 		rec.inner = mb.Handler(s.Batched)
 	}
@@ -194,6 +215,7 @@ func newStation(s scen.Side, dirbox bool, tmp string) (*station, error) {
 			mb.Add(m)
 		}
 	}
+	rec.policy = s.Policy
 	st.rec = rec
 	return st, nil
 }
@@ -386,6 +408,7 @@ func run(c Case) (sig, msg string, st stats) {
 	if err != nil {
 		return "harness-generator", err.Error(), st
 	}
+	sa.rec.dupOut, sb.rec.dupOut = c.DupA, c.DupB
 	for i := range c.Faults {
 		f := c.Faults[i]
 		nA, nB := len(sa.rec.events), len(sb.rec.events)
@@ -432,6 +455,16 @@ func run(c Case) (sig, msg string, st stats) {
 		}
 		st.cleanSessions = n
 		if o.errA == nil && o.errB == nil {
+			// a message that was deferred in the very first session ("=1") needs one more (clean) session
+			busyFirst := false
+			for _, side := range []scen.Side{c.Sc.A, c.Sc.B} {
+				for _, a := range side.Policy {
+					busyFirst = busyFirst || a == "=1"
+				}
+			}
+			if busyFirst && sa.rec.sess <= 1 {
+				continue
+			}
 			break
 		}
 		if n >= 3 {
@@ -462,6 +495,17 @@ func account(c Case, st stats, key uint64) {
 		for _, q := range side.Queue {
 			if q.Tuned != "" {
 				harness.Label("has-message-on-block-boundary:" + q.Tuned)
+			}
+		}
+	}
+	if c.DupA || c.DupB {
+		harness.Label("mailbox-hands-a-message-out-twice")
+	}
+	for _, side := range []scen.Side{c.Sc.A, c.Sc.B} {
+		for _, a := range side.Policy {
+			if a == "=1" {
+				harness.Label("has-deferral-that-lasts-for-the-first-session-only")
+				break
 			}
 		}
 	}
@@ -532,6 +576,21 @@ func genScenario(t *rapid.T, dirbox bool) scen.Scenario {
 	if dirbox {
 		sc.A.Batched, sc.B.Batched = false, false
 	}
+	// half of the deferrals only last for the first session of the history
+	for _, pol := range []map[string]string{sc.A.Policy, sc.B.Policy} {
+		var mids []string
+		for mid, a := range pol {
+			if a == "=" {
+				mids = append(mids, mid)
+			}
+		}
+		sort.Strings(mids)
+		for _, mid := range mids {
+			if rapid.Bool().Draw(t, "busy_first") {
+				pol[mid] = "=1"
+			}
+		}
+	}
 	return sc
 }
 
@@ -540,7 +599,7 @@ func TestProp(t *testing.T) {
 	rapid.Check(t, func(t *rapid.T) {
 		dirbox := rapid.IntRange(0, 3).Draw(t, "dirbox") == 0
 		sc := genScenario(t, dirbox)
-		base := Case{Sc: sc, DirBox: dirbox}
+		base := Case{Sc: sc, DirBox: dirbox, DupA: rapid.IntRange(0, 5).Draw(t, "dup_a") == 0, DupB: rapid.IntRange(0, 5).Draw(t, "dup_b") == 0}
 		harness.Begin(base)
 		sig, msg, st := run(base)
 		harness.End()
@@ -571,7 +630,7 @@ func TestProp(t *testing.T) {
 			faults = append(faults, Fault{"store", "A", int64(j)})
 		}
 		for _, f := range faults {
-			c := Case{Sc: sc, Faults: []Fault{f}, DirBox: dirbox}
+			c := Case{Sc: sc, Faults: []Fault{f}, DirBox: dirbox, DupA: base.DupA, DupB: base.DupB}
 			harness.Begin(c)
 			sig, msg, st := run(c)
 			harness.End()
@@ -589,7 +648,7 @@ func TestProp(t *testing.T) {
 			for i := 0; i < n; i++ {
 				fs = append(fs, faults[rapid.IntRange(0, len(faults)-1).Draw(t, "fault")])
 			}
-			c := Case{Sc: sc, Faults: fs, DirBox: dirbox}
+			c := Case{Sc: sc, Faults: fs, DirBox: dirbox, DupA: base.DupA, DupB: base.DupB}
 			harness.Begin(c)
 			sig, msg, st := run(c)
 			harness.End()
